@@ -41,8 +41,10 @@ def branch(i, nreq=1, nopt=1, shared=None):
 def allof_cases(ctx):
     out = []
     k = 0
-    for n, form, overlap in itertools.product([1, 2, 3, 4], ["inline", "ref", "mixed"], [False, True]):
+    for n, form, overlap in itertools.product([1, 2, 3, 4], ["inline", "ref", "mixed", "inline-untyped-first", "ref-untyped-first", "inline-untyped-last"], [False, True]):
         if overlap and n == 1:
+            continue
+        if "untyped" in form and n == 1:
             continue
         brs = []
         for i in range(n):
@@ -53,7 +55,9 @@ def allof_cases(ctx):
         defs = {}
         lst = []
         for i, (b, _, _, _) in enumerate(brs):
-            if form == "ref" or (form == "mixed" and i % 2 == 0):
+            if (form.endswith("untyped-first") and i == 0) or (form.endswith("untyped-last") and i == n - 1):
+                b.pop("type", None)          # a shared base written without "type": "object"
+            if form.startswith("ref") or (form == "mixed" and i % 2 == 0):
                 defs["Br%d" % i] = b
                 lst.append({"$ref": "#/$defs/Br%d" % i})
             else:
